@@ -16,7 +16,7 @@ import time
 VERIF = os.path.dirname(os.path.dirname(os.path.abspath(__file__)))
 REPO = os.environ.get("VERIF_REPO", "/repo")
 LEAN_DIR = os.path.join(VERIF, "lean")
-SCRATCH_ROOT = os.environ.get("VERIF_SCRATCH", "/var/tmp/asl-verif")
+SCRATCH_ROOT = os.environ.get("VERIF_SCRATCH", "/var/tmp/asl-verif-main")
 GUARD = "ASL_VERIF"
 ALLOWED_AXIOMS = {"propext", "Classical.choice", "Quot.sound"}
 FORBIDDEN_RE = re.compile(
@@ -81,14 +81,17 @@ class BuildError(Exception):
     pass
 
 
-def _prune_builds(keep=4):
+def _prune_builds(keep=6):
     try:
         ds = [os.path.join(SCRATCH_ROOT, d) for d in os.listdir(SCRATCH_ROOT) if d.startswith("b-")]
     except FileNotFoundError:
         return
     ds.sort(key=lambda d: os.path.getmtime(d), reverse=True)
+    now = time.time()
     for d in ds[keep:]:
-        shutil.rmtree(d, ignore_errors=True)
+        # never remove a build another running check may still be using
+        if now - os.path.getmtime(d) > 3 * 3600:
+            shutil.rmtree(d, ignore_errors=True)
 
 
 def repo_build(flavor="hooks", targets=None):
@@ -470,3 +473,59 @@ def rng_for(seed, tag):
 
 def hexs(b):
     return bytes(b).hex()
+
+
+# --------------------------------------------------------------------------
+# golden corpus (tests/t_*) helpers, shared by C01/C16/C17/C18/C19
+
+def corpus_tests():
+    """[(name, asm path, [asflags...])] of the repository's golden tests"""
+    import shlex
+    out = []
+    tdir = os.path.join(REPO, "tests")
+    for n in sorted(os.listdir(tdir)):
+        d = os.path.join(tdir, n)
+        asm = os.path.join(d, n + ".asm")
+        if not os.path.isfile(asm):
+            continue
+        flags = []
+        ff = os.path.join(d, "asflags")
+        if os.path.exists(ff):
+            flags = shlex.split(open(ff).read().strip())
+        out.append((n, asm, flags))
+    return out
+
+
+def assemble_test(bdir, wd, name, asm, flags, extra_flags=(), env=None, out_base=None, timeout=120):
+    """run asl the way test_driver.c does; returns (status, stdout, stderr, path of .p)"""
+    base = out_base or os.path.join(wd, name)
+    args = list(flags) + ["-q", "-i", os.path.join(REPO, "include")] + list(extra_flags) + [asm, "-o", base + ".p", "-shareout", base + ".h"]
+    rc, so, se = run_tool(bdir, "asl", args, wd, timeout=timeout, env=env)
+    return rc, so, se, base + ".p"
+
+
+def parse_pfile_py(data):
+    """Harness-side reader of a code file (used for plumbing only; the oracle reader is the Lean one).
+    returns list of ('D', cpu, seg, gran, start, bytes) / ('E', addr) or None"""
+    if len(data) < 2 or data[0] != 0x89 or data[1] != 0x14:
+        return None
+    i = 2
+    items = []
+    gran_tab = None
+    while i < len(data):
+        h = data[i]
+        i += 1
+        if h == 0:
+            return items
+        if h == 0x80:
+            items.append(("E", int.from_bytes(data[i:i + 4], "little")))
+            i += 4
+        elif h == 0x81:
+            cpu, seg, gran = data[i], data[i + 1], data[i + 2]
+            start = int.from_bytes(data[i + 3:i + 7], "little")
+            ln = int.from_bytes(data[i + 7:i + 9], "little")
+            items.append(("D", cpu, seg, gran, start, data[i + 9:i + 9 + ln]))
+            i += 9 + ln
+        else:
+            return None
+    return None
